@@ -2,6 +2,9 @@
 (push_back(v[s]), emplace_back(v[s]), insert(p, v[s]), insert(p, n, v[s]), emplace(p, v[s]), resize(n, v[s]),
 assign(n, v[s]), append(n, v[s])) are part of E1's alphabet: every position p, source index s, count 0..3 from every
 reachable state (so: exactly full, one spare slot, ample spare, inline and heap) -- compared with std::vector."""
+import json
+
+import vlib
 from checks import e1
 
 
@@ -28,5 +31,42 @@ def run(ctx):
     # every oracle counts on an aliasing call: reading the argument after it was destroyed or moved-from (a lifetime
     # failure) is exactly "not handled as if copied first", even when the value still looks right
     cov = e1.explore(ctx, matrix(ctx.tier == "quick"), ["C10"], any_fail_on_ops=r"_ALIAS$")
+    # large indices: vectors of 60..250 elements (thorough: 32 770 with a 16-bit size_type) whose size_type is narrow, so
+    # that a source index exceeds the maximum of the SIGNED type of the same width (grid_c10.cpp)
+    I = e1.inst
+    gm = [I("vector", 0, "TC4", st="uint8_t", alloc="ledgerstd"), I("small", 3, "NTR", st="uint8_t", alloc="ledgerstd"),
+          I("small", 2, "TR", st="int8_t", alloc="ledgerstd"), I("vector", 0, "NTR", st="int8_t", alloc="ledgerstd")]
+    if ctx.tier != "quick":
+        gm += [I("vector", 0, "TC4", st="uint16_t", alloc="ledgerstd"), I("small", 5, "TC12", st="uint8_t", alloc="ledgerstd"),
+               I("vector", 0, "TR", st="uint8_t", alloc="ledgerstd"), I("small", 2, "PTN", st="uint8_t", alloc="ledgerstd")]
+    args = [] if ctx.tier == "quick" else ["--thorough"]
+    bins = vlib.pmap(lambda i: vlib.build("grid_c10.cpp", e1.flags(i), "g10-" + e1.name(i)), gm)
+
+    def run_grid(ib):
+        i, binp = ib
+        rc, out, err = vlib.run([binp] + args, timeout=max(120, ctx.time_left() - 60))
+        try:
+            return i, binp, json.loads(out), err
+        except ValueError:
+            return i, binp, None, err
+
+    gpoints = ghigh = 0
+    for i, binp, res, err in vlib.pmap(run_grid, list(zip(gm, bins))):
+        if res is None:
+            ctx.violation("G10|%s|%s|crash" % (i["flavour"], e1._vcat(i)), {"engine": "grid_c10", "instantiation": i, "stderr": err[-2000:], "cmd": " ".join([binp] + args)},
+                          "grid_c10 died: " + (err.strip().split("\n") or [""])[-1][:200])
+            continue
+        gpoints += res["evaluations"]
+        ghigh += res["source_index_above_signed_max"]
+        for f in res["failures"]:
+            parts = f.split("|")
+            case = "|".join(parts[:5])
+            rc2, _, _ = vlib.run([binp] + args + ["--case", case], timeout=300)
+            if rc2 == 0:
+                raise RuntimeError("grid failure did not reproduce: " + f)
+            ctx.violation("G10|%s|%s|%s|%s" % (i["flavour"], e1._vcat(i), parts[0], e1.norm(parts[-1])),
+                          {"engine": "grid_c10", "instantiation": i, "case": case, "observed": parts[-1], "cmd": "%s %s --case '%s'" % (binp, " ".join(args), case)}, f)
+    cov["large_index_grid_points"] = gpoints
+    cov["large_index_grid_points_source_above_signed_max"] = ghigh
     al = ("PUSH_ALIAS", "EMPLACE_BACK_ALIAS", "INS_ALIAS", "INS_N_ALIAS", "EMPLACE_ALIAS", "RESIZE_ALIAS", "ASSIGN_ALIAS", "APPEND_ALIAS")
     return ctx.finish("model_checking", cov, e1.ASSUME + ["aliasing transitions are those of kinds " + ", ".join(al)])
